@@ -218,14 +218,14 @@ def run_case(case, ctx):
         for k, v in p0.items():
             byval.setdefault(float(v), []).append(k)
         key_of = {}
-        if any(len(ks) > 1 for ks in byval.values()):
-            # the generator drew one value for two parameters (e.g. an edge weight equal to a constant): the value fingerprint cannot
-            # tell them apart, the case decides nothing
-            res.update(status='discard', symptom='two declared parameters share one value', mech=mech)
-            return res
         for n in back_names:
             v = stp[n][1]
             ks = byval.get(v)
+            if ks and len(ks) > 1:
+                # the generator drew one value for two parameters (e.g. an edge weight equal to a constant): the value fingerprint
+                # cannot tell them apart, the case decides nothing
+                res.update(status='discard', symptom='two declared parameters share the value of an exported parameter', mech=mech)
+                return res
             if not ks or len(ks) != 1:
                 raise observe.Mismatch(f"STPNT value {v!r} of parameter {n} (slot {stp[n][0]}) is not the declared value of exactly one "
                                        f"model parameter (declared: {sorted(byval)[:30]})")
